@@ -19,7 +19,8 @@ CONSTANTS Skis, MaxConns, Defects, GenMode, EmitMode, SimDepth, MaxOps,
           Spellings    \* "canon" and re-spellings; no action looks at the spelling (the harness picks a concrete one)
 DefectNames == {"rawSki",            \* hub_pairing.go: unregister / disconnect / cancel / detail look the connection up by the raw string
                 "staleDisconnect",   \* hub_shipconnection.go: RemoteSKIDisconnected also for a connection that is not the registered one
-                "dialAfterShutdown"} \* hub.go: Shutdown sets no flag, a later mDNS report still leads to a dial
+                "dialAfterShutdown", \* hub.go: Shutdown sets no flag, a later mDNS report still leads to a dial
+                "staleStateUpdate"}  \* hub_shipconnection.go: a state reported by a connection that is not the registered one overwrites the pairing detail
 ASSUME Defects \subseteq DefectNames
 Has(d) == d \in Defects
 
@@ -110,8 +111,11 @@ StateUpdate(i, s, e) ==
     /\ LET k == conns[i].ski
            m == IF e THEN "Error" ELSE Map(s)
            t == svc[k].trusted \/ s = "HelloOk"
+           \* another connection is registered and it is in a different state: the update is ignored (since the repair)
+           stale == ~Has("staleStateUpdate") /\ svc[k].reg # 0 /\ svc[k].reg # i /\ conns[svc[k].reg].st # s
        IN  /\ conns' = [conns EXCEPT ![i].st = s, ![i].err = e]
-           /\ IF svc[k].dstate # m \/ svc[k].derr # e
+           /\ IF stale THEN svc' = svc /\ out' = <<>>
+              ELSE IF svc[k].dstate # m \/ svc[k].derr # e
               THEN /\ svc' = [svc EXCEPT ![k].trusted = t, ![k].intent = @ \/ s = "HelloOk", ![k].dstate = m, ![k].derr = e]
                    /\ out' = <<"latenote:" \o k \o ":" \o m>>
               ELSE /\ svc' = [svc EXCEPT ![k].trusted = t, ![k].intent = @ \/ s = "HelloOk"] /\ out' = <<>>
